@@ -534,25 +534,41 @@ Qed.
 Definition dangling (inp : list entry) : Prop :=
   exists e l, In e inp /\ e_link e = Some l /\ clean l <> [] /\ has_key (clean l) inp = false.
 
+(* ... reached from the path p by parent / hardlink-target steps *)
+Definition dangling_from (inp : list entry) (p : path) : Prop :=
+  exists e l, In e inp /\ reach inp p (key e) /\ e_link e = Some l /\ clean l <> [] /\ has_key (clean l) inp = false.
+
+Lemma dangling_from_dangling : forall inp p, dangling_from inp p -> dangling inp.
+Proof. intros inp p [e [l [H1 [_ [H2 [H3 H4]]]]]]. exists e, l. tauto. Qed.
+
+Lemma dangling_from_step : forall inp p q, dep inp p q -> dangling_from inp q -> dangling_from inp p.
+Proof.
+  intros inp p q Hd [e [l [H1 [H2 [H3 [H4 H5]]]]]]. exists e, l. repeat split; try assumption.
+  eapply reach_step; eauto.
+Qed.
+
 Lemma move_rec_notfound : forall inp fuel req vis p out out',
   move_rec fuel inp req vis p out = MNotFound out' ->
-  (req = true /\ p <> [] /\ has_key p inp = false) \/ dangling inp.
+  (req = true /\ p <> [] /\ has_key p inp = false) \/ dangling_from inp p.
 Proof.
   intros inp fuel. induction fuel as [|f IH]; intros req vis p out out' H; [discriminate|].
   destruct p as [|x p'].
   - rewrite move_rec_root in H. destruct (get inp []); [destruct (has_key [] out)|]; discriminate.
   - rewrite move_rec_cons in H. set (p := x :: p') in *.
+    assert (Hp : p <> []) by discriminate.
     destruct (req && negb (has_key p inp)) eqn:Er.
     { left. apply andb_true_iff in Er. destruct Er as [Er1 Er2]. apply negb_true_iff in Er2.
       repeat split; [assumption|discriminate|assumption]. }
     destruct (mem_path p vis); [discriminate|].
     destruct (move_rec f inp false (p :: vis) (parent p) out) as [out1|out1| |] eqn:E1; try discriminate.
-    2:{ apply IH in E1. destruct E1 as [[E _]|E]; [discriminate|right; assumption]. }
+    2:{ apply IH in E1. destruct E1 as [[E _]|E]; [discriminate|right].
+        eapply dangling_from_step; [left; split; [exact Hp|reflexivity]|exact E]. }
     destruct (link_call f inp vis p out1) as [out2|out2| |] eqn:E2; try discriminate.
     2:{ unfold link_call in E2. destruct (get inp p) as [e|] eqn:Eg; [|discriminate].
         destruct (e_link e) as [l|] eqn:El; [|discriminate].
-        apply IH in E2. destruct E2 as [[_ [E2 E3]]|E2]; [|right; assumption].
-        right. exists e, l. apply get_some in Eg. tauto. }
+        apply IH in E2. right. destruct E2 as [[_ [E2 E3]]|E2].
+        - exists e, l. pose proof (get_some _ _ _ Eg) as [Hin Hk]. rewrite Hk. repeat split; try assumption. apply reach_refl.
+        - eapply dangling_from_step; [right; split; [exact Hp|eauto]|exact E2]. }
     unfold finish in H. destruct (has_key p out2); [discriminate|]. destruct (get inp p); discriminate.
 Qed.
 
@@ -686,7 +702,7 @@ Inductive groups (inp : list entry) : list entry -> list string -> list (list en
     groups inp out (l :: ls) (g :: gs) ms
 | groups_missed : forall out l ls g gs ms,
     (forall e, In e g -> In e inp /\ reach inp (clean l) (key e) /\ ~ In (key e) (keys out)) ->
-    (absent inp l \/ dangling inp) ->
+    (absent inp l \/ dangling_from inp (clean l)) ->
     groups inp (out ++ g) ls gs ms ->
     groups inp out (l :: ls) (g :: gs) (l :: ms).
 
@@ -772,7 +788,7 @@ Proof.
 Qed.
 
 Lemma groups_missed_in : forall inp out prio gs ms,
-  groups inp out prio gs ms -> forall l, In l ms -> In l prio /\ (absent inp l \/ dangling inp).
+  groups inp out prio gs ms -> forall l, In l ms -> In l prio /\ (absent inp l \/ dangling_from inp (clean l)).
 Proof.
   intros inp out prio gs ms H. induction H as [out|out l0 ls g gs ms A P L C Hg IH|out l0 ls g gs ms A NF Hg IH];
     intros l Hl.
@@ -801,7 +817,7 @@ Proof.
   intros inp out prio gs ms H Hd. induction H as [out|out l0 ls g gs ms A P L C Hg IH|out l0 ls g gs ms A NF Hg IH]; cbn.
   - reflexivity.
   - destruct (absentb inp l0) eqn:E; [|assumption]. apply absentb_true in E. destruct E. destruct P; congruence.
-  - destruct NF as [NF|NF]; [|contradiction]. apply absentb_true in NF. rewrite NF. f_equal. assumption.
+  - destruct NF as [NF|NF]; [|exfalso; apply Hd; eapply dangling_from_dangling; exact NF]. apply absentb_true in NF. rewrite NF. f_equal. assumption.
 Qed.
 
 (* ------------------------------------------------------------------ *)
@@ -958,7 +974,7 @@ Qed.
 Lemma sort_missing : forall t prio allow out missed,
   sort_entries t prio allow = SOk out missed ->
   (forall l, In l prio -> absent (import t) l -> allow = true /\ In l missed)
-  /\ (forall l, In l missed -> In l prio /\ (absent (import t) l \/ dangling (import t)))
+  /\ (forall l, In l missed -> In l prio /\ (absent (import t) l \/ dangling_from (import t) (clean l)))
   /\ (allow = false -> missed = []).
 Proof.
   intros t prio allow out missed H.
